@@ -86,13 +86,17 @@ ASSUMPTIONS = [
     "and no run with the target classes masked out of sys.modules",
 ]
 EXPLANATION = (
-    "Theorems: forwarding_faithful (for every object semantics, heap, target and forwarded operation whose attribute "
-    "name the policy passes unchanged, the peer's handler applies exactly the primitive steps of the direct operation: "
-    "same result / exception, same heap), denied_no_effect, sequence_equiv (any finite sequence; induction), "
-    "classic/public/default_permits + default_permits_operators (which operations each configuration permits, from the "
-    "generated safe list), buffiter_all / buffiter_raising / buffiter_rejects / unguarded_truncates, and the generated "
-    "request table of netref.py = the model's (base_requests_are_modelled, made_methods_are_modelled, "
-    "handlers_are_modelled, local_names_not_forwarded). PARTIAL: operator semantics is CPython's, covered by twin runs.")
+    "Theorems: forwarding_faithful (for every object semantics, heap, target and in-scope forwarded operation whose "
+    "attribute name the policy passes unchanged, the peer's handler applies exactly the primitive steps of the direct "
+    "operation: same result / exception, same heap), denied_no_effect, sequence_equiv (any finite sequence of forwarded "
+    "operations; induction), classic_permits_all (rpyc's classic mode, switches generated from a live SlaveService "
+    "connection: every name, no hypothesis), all_attrs_permits / public_permits / default_permits + "
+    "default_permits_operators, buffiter_all / buffiter_raising / buffiter_rejects / unguarded_truncates, the data-model "
+    "layer (binary_operator_through_proxies, comparison_through_proxies, with_block_through_proxy, "
+    "proxy_method_is_type_method; class_query / instancecheck_local are definitional), and obligations over tables observed "
+    "on the real netref code: base_requests_are_modelled, made_methods_are_modelled, made_methods_reserve_no_keyword, "
+    "no_second_attribute_request, local_names_behave_as_observed, handlers_are_modelled. PARTIAL: operator semantics "
+    "beyond the data-model layer is CPython's, covered by the twin runs and fixed cases only.")
 
 CONFIGS = {
     # rpyc's classic mode: NOT typed here - read off a connection established through the live SlaveService on first use
@@ -2281,15 +2285,16 @@ def with_exception_probe(config_name):
 # ---------------------------------------------------------------------------------------------- correspondence
 def correspondence(ctx):
     c = Corr()
-    c.rule = ("(a) every kind of proxy operation on real netrefs of 8 target kinds: decoded request frames vs the model's "
+    c.rule = ("(a) every kind of proxy operation on real netrefs of 8 target kinds, and get/set/del of every LOCAL_ATTRS name: decoded request frames vs the model's "
               "wireOf; (b) seeded twin runs: sequences of <= 25 operations (attribute get/set/del, method calls with "
               "positional/keyword arguments, binary / reflected / in-place / unary operators, six comparisons, indexing and "
               "slicing incl. extended slices, plain / partial / buffered iteration over chunk x max_chunk x factor grids, "
               "len/str/repr/hash/bool/dir/format, conversions, copy/pickle, isinstance/__class__, with-blocks) over 18 target "
               "kinds: list, dict, set, bytearray, deque, generator (some raising), io.BytesIO, user classes (Vec, Pairs with "
               "exposed_ namesakes, Counting with failing reads, four same-named Shape classes, Hooked with delegating "
-              "_rpyc_*attr hooks) under classic / public / default configurations, and an auto-vivifying namespace under "
-              "classic without the exposed_ prefix; plus fixed deterministic cases; "
+              "_rpyc_*attr hooks) under classic (rpyc's classic mode, read off a live SlaveService connection: prefix off) / "
+              "all-attrs (every name allowed, prefix on) / public / default configurations, and an auto-vivifying namespace "
+              "under classic; plus fixed deterministic cases; "
               "operands only immutable values or objects created on the target's side. Model comparisons: request frames, "
               "policy decisions (checkAttr), buffiter outcomes. Non-trivial: a sequence with at least one forwarded "
               "operation; distinct = (kind, configuration, multiset of step labels x outcome kinds).")
